@@ -431,6 +431,8 @@ func ZZ_C07_assignment_targets() {
 	e.Define("mm", map[interface{}]interface{}{int64(0): map[interface{}]interface{}{}})
 	e.Define("mnest", map[interface{}]interface{}{int64(0): []interface{}{int64(5)}})
 	e.Define("ilst", []int64{0, 1, 2})
+	e.Define("strs", []interface{}{"ab"})
+	e.Define("nilmaps", map[string]map[string]int64{"k": nil})
 	e.Define("inest", [][]int64{{5, 6}, {7}})
 	e.Define("recs", []*zzRec{{A: 1}, {A: 2}})
 	e.Define("gset", func(p *int64) { *p = 42 })
@@ -447,6 +449,9 @@ func ZZ_C07_assignment_targets() {
 		{"map-entry", "m[p(1)] = p(9)"},
 		{"nested-map-entry", "mm[i0(1)][p(2)] = p(9)"},
 		{"slice-in-map-append-at-len", "mnest[i0(1)][i1(2)] = p(9)"},
+		// two more stores that go back through the target's syntax (the string is rebuilt, the nil map is made)
+		{"string-in-slice-element-store-back", "strs[i0(1)][i1(2)] = pk(9)"},
+		{"nil-typed-map-member-store-back", "nilmaps[pk(1)].z = p(9)"},
 		{"two-targets", "lst[i0(1)], lst[i1(2)] = p(8), p(9)"},
 		{"member-of-element", "mm[i0(1)].x = p(9)"},
 		{"let-map-item", "v, ok = m[p(1)]"},
